@@ -64,7 +64,7 @@ func c14Judge(k c14Case) *vlib.Failure {
 				return vlib.Failf("approved although element %q is not an allowed name (set %q, lines %q)", n, k.Set, k.Lines)
 			}
 		}
-	case "api", "api-after-debug":
+	case "api", "api-after-debug", "api-after-parts":
 		apiCfg := cors.Config{Origins: []string{"https://a.b"}, RequestHeaders: append([]string(nil), k.Set...)}
 		m, err := cors.NewMiddleware(apiCfg)
 		if err != nil {
@@ -80,6 +80,9 @@ func c14Judge(k c14Case) *vlib.Failure {
 			vlib.Serve(h, &inner.Calls, req, nil)
 			m.SetDebug(false)
 		}
+		if k.Via == "api-after-parts" {
+			c14ServeParts(h, k.Lines)
+		}
 		res := vlib.Serve(h, &inner.Calls, req, nil)
 		ok := res.Status >= 200 && res.Status <= 299 && len(res.Hdr["Access-Control-Allow-Origin"]) == 1
 		if ok != want {
@@ -94,6 +97,21 @@ func c14Judge(k c14Case) *vlib.Failure {
 		return vlib.Failf("bad case")
 	}
 	return nil
+}
+
+// c14ServeParts serves, as preflights of their own, every single line of the sequence and every proper prefix of
+// it: whatever verdict on a part is remembered must not be taken for a verdict on the whole.
+func c14ServeParts(h http.Handler, lines []string) {
+	serve := func(l []string) {
+		r := vlib.Req{Method: "OPTIONS", Hdr: map[string][]string{"Origin": {"https://a.b"}, "Access-Control-Request-Method": {"GET"}, "Access-Control-Request-Headers": l}}
+		h.ServeHTTP(vlib.NewRec(), r.HTTP())
+	}
+	for i := range lines {
+		serve(lines[i : i+1])
+	}
+	for i := 1; i < len(lines); i++ {
+		serve(lines[:i])
+	}
 }
 
 func c14Test(k c14Case) string {
@@ -467,6 +485,32 @@ func checkC14(c *vlib.Ctx) (string, string) {
 				}
 			}
 		}
+		// history: the parts of the sequence come first, as preflights of their own, on a middleware of their own
+		apiAfterParts := func(lines []string) {
+			mh, err := cors.NewMiddleware(cors.Config{Origins: []string{"https://a.b"}, RequestHeaders: f.set})
+			if err != nil {
+				return
+			}
+			hh := mh.Wrap(http.HandlerFunc(func(http.ResponseWriter, *http.Request) {}))
+			c14ServeParts(hh, lines)
+			rec := vlib.NewRec()
+			r := vlib.Req{Method: "OPTIONS", Hdr: map[string][]string{"Origin": {"https://a.b"}, "Access-Control-Request-Method": {"GET"}, "Access-Control-Request-Headers": lines}}
+			hh.ServeHTTP(rec, r.HTTP())
+			ok := rec.Status >= 200 && rec.Status <= 299 && len(rec.H["Access-Control-Allow-Origin"]) == 1
+			if ok != ref.ACRH(f.set, lines) {
+				k := c14Case{f.set, append([]string(nil), lines...), "api-after-parts"}
+				if fl := vlib.Guard(func() *vlib.Failure { return c14Judge(k) }); fl != nil {
+					ck.Report(k, fl)
+				} else {
+					vlib.HarnessError("fast path and judge disagree on %+v", k)
+				}
+			}
+		}
+		wp := vlib.NewWords(f.alpha, 2)
+		pp := wp.Count()
+		c.ParRange(pp*pp, 256, "C14 API pairs after their parts", func(i int64) { apiAfterParts([]string{wp.At(i / pp), wp.At(i % pp)}) })
+		c.Evaluations.Add(pp * pp)
+		c.Transitions.Add(4 * pp * pp)
 		wh := vlib.NewWords(f.alpha, 3)
 		c.ParRange(wh.Count(), 256, "C14 API lines after debug mode", func(i int64) { apiAfterDebug([]string{wh.At(i)}) })
 		c.Evaluations.Add(wh.Count())
